@@ -640,7 +640,8 @@ pub fn make_case(r: &mut Sm, idx: usize, prop: StepProp, depth_exhaustive: Optio
     // long stepping runs need a goal that is not hit at once
     problem.goal.radius *= 0.5;
     let mut params = gen_params(r, &spec, kind, false);
-    params.search_radius = params.max_distance * *r.pick(&[0.5, 1.0, 2.0, 5.0]);
+    // (0 and negative: rewiring switched off - no node is "within" such a radius)
+    params.search_radius = params.max_distance * *r.pick(&[0.5, 1.0, 2.0, 5.0, 0.0, 1.0, 2.0, -1.0]);
     params.goal_bias = *r.pick(&[0.0, 0.0, 0.05, 0.3]);
     let letters = alphabet(r, &problem, 3);
     let script: Vec<usize> = match depth_exhaustive {
@@ -846,18 +847,28 @@ fn rrt_vs_star(ctx: &Ctx, tier: Tier, seed: u64) -> Value {
             let wrap = ALL_WRAPS[i % 6];
             let spec = gen_spec(&mut r, wrap, &GenOpts { nonconvex: false, fracs: true, odd_weights: true, max_dim: 3 });
             let host = *r.pick(&[Hostility::Plain, Hostility::Free, Hostility::GoalOverlap]);
-            let problem = gen_problem(&mut r, &spec, host);
+            let mut problem = gen_problem(&mut r, &spec, host);
+            // half of the pairs with a goal sampler that consumes the planner's generator
+            if r.bool(0.5) {
+                problem.goal.mode = crate::world::GoalMode::Rng;
+            }
             let mut params = gen_params(&mut r, &spec, PKind::Rrt, false);
-            params.search_radius = params.max_distance * *r.pick(&[0.5, 1.0, 2.0, 5.0]);
+            // (0 and negative: rewiring switched off - no node is "within" such a radius)
+    params.search_radius = params.max_distance * *r.pick(&[0.5, 1.0, 2.0, 5.0, 0.0, 1.0, 2.0, -1.0]);
             let iters = 20 + r.below(400) as u64;
             with_kit!(spec, K, kit => {
                 let sc1 = super::plan::Scenario { problem: problem.clone(), params: params.clone(), iters, prm_samples: 0, script: None, query_budget: 2_000_000 };
                 let mut p2 = params.clone();
                 p2.kind = PKind::Star;
                 let sc2 = super::plan::Scenario { problem: problem.clone(), params: p2, iters, prm_samples: 0, script: None, query_budget: 2_000_000 };
-                if let (Ok((_, r1)), Ok((_, r2))) = (super::plan::exec::<K>(&kit, &sc1), super::plan::exec::<K>(&kit, &sc2)) {
+                // a fifth of the pairs: both planner objects are first asked to solve before setup
+                // (a refused call must not change what the same seed produces afterwards)
+                let refused = r.bool(0.2);
+                let run = |sc: &super::plan::Scenario| if refused { super::plan::exec_after_refused_solve::<K>(&kit, sc) } else { super::plan::exec::<K>(&kit, sc) };
+                if let (Ok((_, r1)), Ok((_, r2))) = (run(&sc1), run(&sc2)) {
                     b.evaluations += 1;
                     b.count("rrt_vs_star_pairs", 1);
+                    if refused { b.count("rrt_vs_star_pairs_after_a_refused_solve", 1); }
                     let replay = || { let mut v = sc1.to_json(); v["property"] = json!("C17"); v["kind"] = json!("rrt-vs-star"); v };
                     match (&r1, &r2) {
                         (Res::Path(a), Res::Path(c)) => {
